@@ -50,22 +50,22 @@ type Machine struct {
 	sched   *scheduler
 	inited  map[*ssa.Package]bool
 	// model state
-	clock      int64 // virtual monotonic clock, ns
-	clockTerm  *Term // optional symbolic offset
-	timers     []*vtimer
-	models     map[any]any
-	allocs     int64
-	fmtMemo    map[string]value
-	trace      bool
-	initDirect *ssa.Function
-	fpMemo     map[fpKey]*Term
-	fpOrigin   map[*Term]*Term // float64 var -> the float32 term it widens
-	preemptAt   int  // -1: off; k: preempt before the k-th call instruction of spawned goroutines
+	clock       int64 // virtual monotonic clock, ns
+	clockTerm   *Term // optional symbolic offset
+	timers      []*vtimer
+	models      map[any]any
+	allocs      int64
+	fmtMemo     map[string]value
+	trace       bool
+	initDirect  *ssa.Function
+	fpMemo      map[fpKey]*Term
+	fpOrigin    map[*Term]*Term // float64 var -> the float32 term it widens
+	preemptAt   int             // -1: off; k: preempt before the k-th call instruction of spawned goroutines
 	preemptSeen int
 	preemptHit  bool
-	fmtOpaque  bool              // fmt verbs render symbolic scalar/string operands as "?" (vsymFmtOpaque)
-	poolReuse  bool              // sync.Pool.Get returns the most recently Put object (LIFO) instead of always missing
-	pools      map[*value][]value
+	fmtOpaque   bool // fmt verbs render symbolic scalar/string operands as "?" (vsymFmtOpaque)
+	poolReuse   bool // sync.Pool.Get returns the most recently Put object (LIFO) instead of always missing
+	pools       map[*value][]value
 }
 
 type deferred struct {
